@@ -102,6 +102,7 @@ class Link(base.BaseObject):
         self._vertices.append(new)
         if (new is not None) and (self not in new.links):
             new.add_to_link(self)
+        self._invalidate_ends()
 
     def unlink_from(self, kill: Vertex):
         """
@@ -119,3 +120,16 @@ class Link(base.BaseObject):
 
             if kill is not None:
                 kill.remove_from_link(self)
+            self._invalidate_ends()
+
+    def _invalidate_ends(self):
+        """
+        Invalidate the neighbor cache of every vertex of this link.
+
+        The neighbors of *each* end depend on the full set of ends of this
+        link, so this must be called whenever that set changes.
+        """
+        for end in self._vertices:
+            if end is not None:
+                # pylint: disable-next=protected-access
+                end._qa_neighbors_invalidate()
